@@ -522,15 +522,23 @@ type workerProc struct {
 }
 
 type tailBuf struct {
-	mu sync.Mutex
-	b  []byte
+	mu   sync.Mutex
+	head []byte
+	b    []byte
 }
 
 func (t *tailBuf) Write(p []byte) (int, error) {
 	t.mu.Lock()
+	if len(t.head) < 1500 {
+		n := 1500 - len(t.head)
+		if n > len(p) {
+			n = len(p)
+		}
+		t.head = append(t.head, p[:n]...)
+	}
 	t.b = append(t.b, p...)
-	if len(t.b) > 16384 {
-		t.b = t.b[len(t.b)-16384:]
+	if len(t.b) > 4096 {
+		t.b = t.b[len(t.b)-4096:]
 	}
 	t.mu.Unlock()
 	return len(p), nil
@@ -621,7 +629,7 @@ func runJobs(id string, jobs []Job, workers int) []*JobResult {
 					wp.in.Close()
 					wp.cmd.Wait()
 					wp.errBuf.mu.Lock()
-					tail := string(wp.errBuf.b)
+					tail := string(wp.errBuf.head) + "\n[...]\n" + string(wp.errBuf.b)
 					wp.errBuf.mu.Unlock()
 					wp = nil
 					if attempt >= 1 {
